@@ -1,4 +1,9 @@
+import re
 from checks.generic import standard
+
+def _seq_key(line):
+    m = re.match(r"shape=(\S+)", line or "")
+    return "C11:model-oracle:sequence-accept-outside:" + (m.group(1) if m else "unknown")
 
 def run(ctx):
     return standard(ctx,
@@ -6,13 +11,18 @@ def run(ctx):
                               "c11_malformed_never_widens", "c11_numeric_prefix", "c11_refresh_same_blocks", "c11_old_decoder_panics",
                               "c11_refresh_sound", "c11_refresh_complete", "c11_refresh_chain_same", "c11_refresh_chain_reach",
                               "c11_narrowing_by_base_refuted",
-                              "c11_canon_wf", "c11_mint_parse_exact", "c11_mint_parse_numeric", "c11_mint_parse_readback"])],
-        harness=("TestVerif_C11", ["kmd/common.go", "kmd/creds.go", "kmd/consts.go", "kmd/c11.go"]),
+                              "c11_canon_wf", "c11_mint_parse_exact", "c11_mint_parse_numeric", "c11_mint_parse_readback",
+                              "c11_iff_conn", "c11_iff_conn_mint", "c11_resumed_history_independent", "c11_sequence_sound",
+                              "c11_sequence_history_independent", "c11_resume_cache_refuted"])],
+        harness=("TestVerif_C11", ["kmd/common.go", "kmd/creds.go", "kmd/consts.go", "kmd/c11.go", "kmd/c11_resume.go"]),
         cases=("CasesC11.v", [("c11_verify_mismatches", "VerifyIPRestrictedX509CertIP on certificates minted from CIDR texts (any address of the block) = model verify_ip on mint_request (canonicalised by the model)"),
                               ("c11_wf_mismatches", "every requested block list is something a CIDR text can denote (hypothesis of c11_mint_parse_exact) and its canonical form is well-formed"),
                               ("c11_extract_mismatches", "ExtractIPNets of the minted certificate = model extract = canonical forms of the requested blocks"),
                               ("c11_malformed_mismatches", "verdict on corrupted extensions = model verify_ip"),
-                              ("c11_refresh_mismatches", "refresh requests carrying every minting parameter (equal / narrower / wider / disjoint / malformed netblocks, other identities, durations, unknown parameters): answer, identity and netblocks of the returned certificate = model refresh", "CasesC11R.idx")], "CasesC11.idx"),
+                              ("c11_refresh_mismatches", "refresh requests carrying every minting parameter (equal / narrower / wider / disjoint / malformed netblocks, other identities, durations, unknown parameters): answer, identity and netblocks of the returned certificate = model refresh", "CasesC11R.idx"),
+                              ("c11_resume_mismatches", "sequences of requests on one server (inside/outside peers, full and RESUMED handshakes, with and without a verified chain; refresh and /certgen/<automation user>): the verdict of every step = model run (auth_ip: no resumption flag, no history)", "CasesC11S.idx")], "CasesC11.idx"),
+        model_oracles=[("c11_resume_violating", _seq_key, "a request of the sequence was admitted although its peer lies in none of the certificate's netblocks (or its connection has no verified chain): the observed verdicts violate c11_sequence_sound as evaluated in Coq", "CasesC11S.idx")],
         trusted=["encoding/asn1 and crypto/x509 parse the extension in front of the model (the model starts at the unmarshalled bit strings)",
-                 "net.ParseIP / IPNet.Contains semantics as modelled by peer/contains (octet-wise mask comparison), validated against an independent numeric oracle in the harness"],
+                 "net.ParseIP / IPNet.Contains semantics as modelled by peer/contains (octet-wise mask comparison), validated against an independent numeric oracle in the harness",
+                 "quick tier: tls.ConnectionState (VerifiedChains, PeerCertificates, DidResume) is built by the harness at handler level; the thorough tier drives real crypto/tls connections with a client session cache from sockets bound inside/outside the block"],
         assumptions=["TLS chain verification is done by crypto/tls; the harness supplies VerifiedChains built from certificates really signed by the state's CA keys"])
